@@ -85,7 +85,7 @@ def malformed_locations(ss, extra):
 def unsupported_sizes(cls):
     """documented (L_x x L_y) but outside the supported family (known finding D14): the model
     transcribes the code there too"""
-    if cls in ('Color488Code', 'Color666ToricCode'):
+    if cls == 'Color666ToricCode':
         return [(1, 2), (2, 1), (2, 3), (3, 2), (1, 3)]
     return []
 
